@@ -1,7 +1,7 @@
 (* Properties/C01.v -- C01: every stored snapshot is a valid texture, after any update history *)
 From Coq Require Import Reals ZArith List.
 From Coquelicot Require Import Hierarchy Derive.
-From PV Require Import Num NumR Model_core Model_minerals Proofs_core Proofs_minerals Proofs_rhs Proofs_flow Proofs_path Proofs_path2 Proofs_path3.
+From PV Require Import Num NumR Model_core Model_minerals Proofs_core Proofs_minerals Proofs_rhs Proofs_flow Proofs_path Proofs_path2 Proofs_path3 Proofs_gronwall Proofs_path4.
 From PV.gen Require Import Gen_core.
 Import ListNotations.
 Open Scope R_scope.
@@ -190,3 +190,143 @@ Example C01_solution_handedness_nonvacuous :
   let y := fun (i : nat) (_ : R) => y0_example i in
   grain_det y 0 0 = 1 /\ grain_det y 1 0 = 1.
 Proof. exact handedness_nonvacuous_proof. Qed.
+
+(* ---- the clip-inactive hypothesis of the `_partial` theorems above, DISCHARGED ---------------------------
+   The vector field is skew with respect to the CLIPPED orientation at EVERY state (no hypothesis on the
+   entries): clipR x = max(-1, min(1, x)) is extract_vars' clip. *)
+Theorem C01_field_skew_wrt_clipped_orientation :
+  forall (regime ph fb : Z) (n : nat) (ass : list Z) (frs Sd : list R) (p nn lam M : R)
+         (L : list R) (s : R) (y : nat -> R) (g r r' : nat),
+  dislocation_regime regime -> (g < n)%nat -> (r < 3)%nat -> (r' < 3)%nat ->
+  let A := fun i j : nat => clipR (y (9 + 9 * g + (3 * i + j))%nat) in
+  let Ad := fun i j : nat => vf regime ph fb n ass frs Sd p nn lam M L s y (9 + 9 * g + (3 * i + j))%nat in
+  Ad r 0%nat * A r' 0%nat + Ad r 1%nat * A r' 1%nat + Ad r 2%nat * A r' 2%nat
+  + (A r 0%nat * Ad r' 0%nat + A r 1%nat * Ad r' 1%nat + A r 2%nat * Ad r' 2%nat) = 0.
+Proof. exact vf_skew_clipped. Qed.
+
+(* Gronwall, zero initial value (the analytic core; any e >= 0 with e' <= C e and e(a) = 0 vanishes on [a,b]) *)
+Theorem C01_gronwall_zero : forall (e e' : R -> R) (a b C : R),
+  a <= b ->
+  (forall t, a <= t <= b -> is_derive e t (e' t)) ->
+  (forall t, a <= t <= b -> 0 <= e t) ->
+  (forall t, a <= t <= b -> e' t <= C * e t) ->
+  e a = 0 ->
+  forall t, a <= t <= b -> e t = 0.
+Proof. exact gronwall_zero. Qed.
+
+(* FULL statement (replaces C01_solution_stays_orthonormal_partial): along ANY exact solution of the modelled
+   texture ODE on [a,b] whose grain-g rates are bounded there (B arbitrary; every C^1 solution on a compact
+   interval), a grain that is orthonormal at a is orthonormal at EVERY t in [a,b].  Nothing is assumed about
+   the entries staying in [-1,1]: the squared orthonormality defect e satisfies e' <= 12 B e because the
+   clip excess is at most half the defect of the row norm. *)
+Theorem C01_solution_orthonormality_invariant :
+  forall (regime ph fb : Z) (n : nat) (ass : list Z) (frs Sd : list R) (p nn lam M : R)
+         (Lh : R -> list R) (sh : R -> R) (y : nat -> R -> R) (a b B : R) (g : nat),
+  dislocation_regime regime -> a <= b -> (g < n)%nat ->
+  (forall i t, a <= t <= b ->
+     is_derive (y i) t (f regime ph fb n ass frs Sd p nn lam M Lh sh t (fun j => y j t) i)) ->
+  (forall k t, (k < 9)%nat -> a <= t <= b ->
+     Rabs (f regime ph fb n ass frs Sd p nn lam M Lh sh t (fun j => y j t) (9 + 9 * g + k)%nat) <= B) ->
+  (forall r r', (r < 3)%nat -> (r' < 3)%nat -> gram (grainA y g) r r' a = if Nat.eqb r r' then 1 else 0) ->
+  forall t, a <= t <= b -> forall r r', (r < 3)%nat -> (r' < 3)%nat ->
+    gram (grainA y g) r r' t = if Nat.eqb r r' then 1 else 0.
+Proof. exact solution_orthonormal_invariant. Qed.
+
+(* ... hence extract_vars' clip to [-1,1] is never active on that grain along the solution (the hypothesis the
+   `_partial` theorems had to assume) *)
+Theorem C01_solution_clip_never_active :
+  forall (regime ph fb : Z) (n : nat) (ass : list Z) (frs Sd : list R) (p nn lam M : R)
+         (Lh : R -> list R) (sh : R -> R) (y : nat -> R -> R) (a b B : R) (g : nat),
+  dislocation_regime regime -> a <= b -> (g < n)%nat ->
+  (forall i t, a <= t <= b ->
+     is_derive (y i) t (f regime ph fb n ass frs Sd p nn lam M Lh sh t (fun j => y j t) i)) ->
+  (forall k t, (k < 9)%nat -> a <= t <= b ->
+     Rabs (f regime ph fb n ass frs Sd p nn lam M Lh sh t (fun j => y j t) (9 + 9 * g + k)%nat) <= B) ->
+  (forall r r', (r < 3)%nat -> (r' < 3)%nat -> gram (grainA y g) r r' a = if Nat.eqb r r' then 1 else 0) ->
+  forall k t, (k < 9)%nat -> a <= t <= b -> -1 <= y (9 + 9 * g + k)%nat t <= 1.
+Proof. exact solution_clip_inactive. Qed.
+
+(* ... and a proper rotation (orthonormal, det = 1) stays a proper rotation on the whole of [a,b]
+   (replaces C01_solution_stays_proper_rotation_partial: right-handedness along exact solutions) *)
+Theorem C01_solution_proper_rotation_invariant :
+  forall (regime ph fb : Z) (n : nat) (ass : list Z) (frs Sd : list R) (p nn lam M : R)
+         (Lh : R -> list R) (sh : R -> R) (y : nat -> R -> R) (a b B : R) (g : nat),
+  dislocation_regime regime -> a <= b -> (g < n)%nat ->
+  (forall i t, a <= t <= b ->
+     is_derive (y i) t (f regime ph fb n ass frs Sd p nn lam M Lh sh t (fun j => y j t) i)) ->
+  (forall k t, (k < 9)%nat -> a <= t <= b ->
+     Rabs (f regime ph fb n ass frs Sd p nn lam M Lh sh t (fun j => y j t) (9 + 9 * g + k)%nat) <= B) ->
+  (forall r r', (r < 3)%nat -> (r' < 3)%nat -> gram (grainA y g) r r' a = if Nat.eqb r r' then 1 else 0) ->
+  grain_det y g a = 1 ->
+  forall t, a <= t <= b ->
+    (forall r r', (r < 3)%nat -> (r' < 3)%nat -> gram (grainA y g) r r' t = if Nat.eqb r r' then 1 else 0)
+    /\ grain_det y g t = 1.
+Proof. exact solution_rotation_invariant. Qed.
+
+(* non-vacuity: the constant solution of C01_solution_nonvacuous meets all hypotheses for grain 1 with B = 0 *)
+Example C01_solution_invariance_nonvacuous :
+  let y := fun (i : nat) (_ : R) => y0_example i in
+  dislocation_regime 4 /\
+  (forall i t, is_derive (y i) t
+     (f 4 0 0 2 [0%Z] [1] [] 1.5 3.5 30 125 (fun _ => repeat 0 9) (fun _ => 0) t (fun j => y j t) i)) /\
+  (forall k t, Rabs (f 4 0 0 2 [0%Z] [1] [] 1.5 3.5 30 125 (fun _ => repeat 0 9) (fun _ => 0) t
+                       (fun j => y j t) (9 + 9 * 1 + k)%nat) <= 0) /\
+  (forall r r', (r < 3)%nat -> (r' < 3)%nat -> gram (grainA y 1) r r' 0 = if Nat.eqb r r' then 1 else 0) /\
+  grain_det y 1 0 = 1.
+Proof. exact invariance_nonvacuous_proof. Qed.
+(* ---- round 5: the driver around the integrator (Model_minerals: y_start / lsoda_problem_of / solver_loop /
+   init_default), tied to Mineral.update_orientations and Mineral.__post_init__ by the instance lemmas of
+   Inst_minerals_drv.v (generated = model at n_grains = 1, 2, 3) ------------------------------------------- *)
+From PV Require Import Proofs_driver.
+
+(* the vector the integration starts from: extract_vars gives back EXACTLY the caller's F and the last stored
+   snapshot -- on a valid snapshot both clips and the normalisation are identities *)
+Theorem C01_integration_starts_at_last_snapshot : forall (n : nat) (Fd : list R) (s : @snapshot NumR),
+  length Fd = 9%nat -> valid_snapshot n s ->
+  let y0 := @y_start NumR Fd s in
+  @ev_F NumR y0 = Fd /\ @chunks9 NumR (@ev_o NumR y0 n) n = sn_o s /\ @ev_f NumR y0 n = sn_f s.
+Proof. exact start_is_last_snapshot. Qed.
+
+(* an update whose integrator takes several steps stores what `update` makes of the LAST state vector only *)
+Theorem C01_only_last_solver_vector_is_stored : forall n chi (h : @history NumR) (ys : list (list R)) (y : list R),
+  @update_steps NumR n chi h (map Ok (ys ++ [y])) = @update_history NumR n chi h (Ok y).
+Proof. exact update_steps_last. Qed.
+
+(* the history invariant with whole solver loops as updates: any number of updates, each any number of
+   solver steps, any of them failing *)
+Theorem C01_history_invariant_solver_loops : forall n chi (stepss : list (list (res (list R)))) (h : @history NumR),
+  (0 < n)%nat -> 0 <= chi -> hist_inv n h -> Forall (steps_ok n) stepss -> hist_inv n (run_steps n chi h stepss).
+Proof. exact history_inv_steps. Qed.
+
+(* steps_ok asks something of the LAST vector of a loop only; a loop with a failing step is always admissible *)
+Theorem C01_steps_ok_last_vector : forall n (ys : list (list R)) (y : list R),
+  steps_ok n (map Ok (ys ++ [y])) <-> (length y = (9 + 10 * n)%nat /\ 0 < rsum (clipped_fracs y n)).
+Proof. exact steps_ok_last. Qed.
+Theorem C01_steps_ok_failure : forall n (pre : list (list R)) e rest, steps_ok n (map Ok pre ++ Err e :: rest).
+Proof. exact steps_ok_failure. Qed.
+
+(* the default initial snapshot of Mineral.__post_init__ (volumes np.full(n, 1/n), orientations from the
+   Rotation.random oracle): valid whenever the oracle's entries are in [-1, 1] *)
+Theorem C01_default_initial_snapshot_valid : forall n (R0 : list (list R)),
+  (0 < n)%nat -> length R0 = n -> Forall grain_ok R0 -> valid_snapshot n (@init_default NumR n R0).
+Proof. exact init_default_valid. Qed.
+
+(* what is handed to scipy's LSODA satisfies LSODA's own argument checks (it raises ValueError otherwise) *)
+Theorem C01_lsoda_arguments_well_formed : forall (Fd : list R) (s : @snapshot NumR) (t0 t1 : R), t0 <> t1 ->
+  let P := @lsoda_problem_of NumR Fd s t0 t1 in
+  0 < lp_first P <= Rabs (lp_tb P - lp_t0 P) /\ 0 < lp_rtol P /\ Forall (fun a => 0 < a) (lp_atol P)
+  /\ length (lp_atol P) = length (lp_y0 P).
+Proof. exact problem_well_formed. Qed.
+
+Example C01_driver_nonvacuous :
+  length id9 = 9%nat /\ valid_snapshot 2 snap_ex /\ (0 : R) <> 1 /\ 0 < 1 / 1000
+  /\ steps_ok 2 (map Ok ([[]] ++ [@y_start NumR id9 snap_ex])).
+Proof. exact driver_nonvacuous_proof. Qed.
+
+(* the history invariant for whole assemblages advanced by any number of update_all calls: every stored snapshot of
+   every mineral is a valid texture *)
+Theorem C01_assemblage_history_invariant : forall n chi (yss : list (list (list R))) (hs : list (@history NumR)),
+  (0 < n)%nat -> 0 <= chi -> Forall (hist_inv n) hs ->
+  Forall (fun ys => length ys = length hs /\ Forall (fun y => step_ok n (Ok y)) ys) yss ->
+  Forall (hist_inv n) (bulk_run n chi hs yss).
+Proof. exact bulk_run_invariant. Qed.
